@@ -975,7 +975,7 @@ class Gen:
                 if roots and s.cancelable and r.chance(1, 3):
                     choices.append(("cancel", 2))
                 elif spans and r.chance(1, 10):
-                    choices.append(("cancel", 1))
+                    choices.append(("cancel", 5 if self.k.get("overload") else 1))
                 if s.lspans:
                     choices.append(("pushChild", 3))
             choices += [("localEnter", 6), ("lAddEvent", 2), ("lAddProps", 2), ("ctxLocal", 3), ("childLocal", 3), ("collector", 1)]
